@@ -1492,7 +1492,14 @@ func emitCases(sc Scenario, b *built, progs [][]pop, sinks []*sink, ob runObs, r
 		for _, m := range sinks[0].obs {
 			del = append(del, coqMsg(m))
 		}
-		res.Cases = append(res.Cases, caseOut{Term: fmt.Sprintf("(CRingStress %s %s %s %s)", coqNat(sc.Ring), h.List(ps), h.List(del), coqNat(ob.reported)), Desc: sc})
+		if un := ob.sent - ob.delivered - ob.reported; un > 0 {
+			// messages neither delivered nor reported: this run is judged by the oracle below (the known diode defect
+			// stuck-in-ring-at-close, or a silent drop to be confirmed 3 of 3) — the model of the ring has no such run,
+			// so it is not handed to the correspondence as well (a rare collision must not break the tie by itself)
+			res.Counts["async-case-skipped:unaccounted-messages"]++
+		} else {
+			res.Cases = append(res.Cases, caseOut{Term: fmt.Sprintf("(CRingStress %s %s %s %s)", coqNat(sc.Ring), h.List(ps), h.List(del), coqNat(ob.reported)), Desc: sc})
+		}
 	}
 }
 
